@@ -420,6 +420,16 @@ fn wrath_deliver(c: &mut C, rng: &mut StdRng, cl: &mut Conn, bytes: &[u8], path:
             a4.copy_from_slice(&bytes[..4]);
             if let Some(None) = c.wrath_attempt(cl, a4, via) {
                 if bytes.len() == 5 {
+                    // sometimes a clone is taken between the two steps: the copy must complete the header just as well
+                    if path % 2 == 1 {
+                        let mut k = c.clone_conn(cl);
+                        c.sent = if sent.0 <= 0x7F_FFFF { Some((sent.0, sent.1 as u32)) } else { None };
+                        c.is_clone = true;
+                        c.wrath_complete(&mut k, bytes[4], "half");
+                        c.is_clone = false;
+                        c.drop_conn(&k);
+                        c.sent = if sent.0 <= 0x7F_FFFF { Some((sent.0, sent.1 as u32)) } else { None };
+                    }
                     c.wrath_complete(cl, bytes[4], via);
                 }
             }
@@ -865,6 +875,46 @@ pub fn run_halves(args: &Args) -> (u64, u64) {
             c.drop_conn(&sv);
         }
     }
+    // clones taken in the MIDDLE of an operation: between the 4-byte attempt and the fifth byte of a long Wrath header
+    // (combined object and split half); the copy and the original must both complete the header
+    for round in 0..(if thorough { 40 } else { 6 }) {
+        c.reset("halves-midclone");
+        let Some((mut cl, mut sv)) = pair(&mut c, "wrath", "MIDCLONE", rnd40(&mut rng), None, round) else { continue };
+        if round % 2 == 1 {
+            c.split(&mut cl);
+        }
+        for (k, size) in [0x8000u32, 0x7FFFFF, 0x12345, 12, 0x10000].iter().enumerate() {
+            let op = OPCODES[(k + round as usize) % OPCODES.len()];
+            let Some(bytes) = c.enc_server_hdr(&mut sv, *size, op, "combined") else { break };
+            let mut a4 = [0u8; 4];
+            a4.copy_from_slice(&bytes[..4]);
+            c.sent = Some((*size, op as u32));
+            match c.wrath_attempt(&mut cl, a4, "half") {
+                Some(None) => {
+                    let mut k2 = c.clone_conn(&cl);
+                    c.sent = Some((*size, op as u32));
+                    c.is_clone = true;
+                    c.wrath_complete(&mut k2, bytes[4], "half");
+                    c.is_clone = false;
+                    // the copy goes on decoding the same stream independently of the original
+                    c.sent = Some((*size, op as u32));
+                    c.wrath_complete(&mut cl, bytes[4], "half");
+                    if let Some(b2) = c.enc_server_hdr(&mut sv, 7, 0x3B, "combined") {
+                        let mut b4 = [0u8; 4];
+                        b4.copy_from_slice(&b2[..4]);
+                        c.is_clone = true;
+                        c.sent = Some((7, 0x3B));
+                        c.wrath_attempt(&mut k2, b4, "half");
+                        c.is_clone = false;
+                        c.sent = Some((7, 0x3B));
+                        c.wrath_attempt(&mut cl, b4, "half");
+                    }
+                    c.drop_conn(&k2);
+                }
+                _ => { c.sent = None; }
+            }
+        }
+    }
     // unsplit: equal keys after arbitrary traffic; keys differing in exactly one byte / one bit
     c.reset("unsplit");
     for i in 0..40usize {
@@ -1062,6 +1112,12 @@ pub fn run_hdradv(args: &Args) -> (u64, u64) {
             rng.fill_bytes(&mut big);
             c.call(&mut cl, "dec", &big, via);
             c.call(&mut sv, "dec", &big, via);
+            // a peer that sends nothing: zero-length buffers through every raw entry point
+            for d in ["dec", "enc"] {
+                c.call(&mut cl, d, &[], via);
+                c.call(&mut sv, d, &[], via);
+            }
+            c.call(&mut cl, "dec", &big[..big.len().min(3)], via);
             // hostile world-login values: proofs, seeds
             let mut pr = [0u8; 20];
             rng.fill_bytes(&mut pr);
